@@ -39,7 +39,8 @@ type MediaSpec struct {
 
 // Call is one API call of the client program.
 type Call struct {
-	Api   string `json:"api"` // options describe announce setup play record pause | sleep (not a call: let time pass)
+	Api   string `json:"api"` // options describe announce setup play record pause | sleep (not a call: let time pass) | flood (write media until the queue is full, then wait until Pct % of WriteTimeout have passed)
+	Pct   int    `json:"pct,omitempty"`
 	Media int    `json:"media,omitempty"`
 	Ms    int    `json:"ms,omitempty"` // sleep
 	Silent bool  `json:"silent,omitempty"` // sleep: the scripted server sends nothing at all meanwhile
@@ -88,6 +89,9 @@ type Script struct {
 	Accept     []Reaction  `json:"accept,omitempty"` // N-th accepted connection: what the server writes at once (M unused)
 	Model      bool        `json:"model,omitempty"`  // every reaction has an abstract label: compare with the model
 	Frames     bool        `json:"frames,omitempty"` // after a successful Play/Record exchange media data
+	StallConn  int         `json:"stall_conn,omitempty"`  // the N-th accepted connection stalls …
+	StallStage string      `json:"stall_stage,omitempty"` // … tcp (accepted only) | tlsmid (TLS handshake begun) | nohttp (request read, no answer) | partial (half the answer's headers)
+	SmallBuf   bool        `json:"small_buf,omitempty"`   // tiny receive buffer on the server's sockets (a server that stops reading stalls the peer soon)
 	Tun        string      `json:"tun,omitempty"`    // behaviour of the server during the tunnel handshake ("" = correct)
 	ConcClose  int         `json:"conc_close,omitempty"` // >0: Close() concurrently, that many ms after the call with this index+1 started … see runner
 	ConcAt     int         `json:"conc_at,omitempty"`
